@@ -16,6 +16,9 @@
 (*   Analyze       CallTracer.analyze (second pass over all definitions)                        *)
 (*   ComputeTypes  CallTracer.compute_types;  Optimize  optimize.Optimize;  Print io._output_ast*)
 (*                                                                                              *)
+(* (vm.run_program first calls preprocess.augment_annotations, which parses the text and        *)
+(* swallows a SyntaxError; it is not a stage: an exception escaping it is an Escaped outcome.)   *)
+(*                                                                                              *)
 (* A stage may FAIL only as follows, and the run then ends in the outcome shown:                *)
 (*   Directors / syntax   (only if CPython cannot compile the text)  -> CompileError(line)       *)
 (*   Directors / skip     (only if the text carries `# pytype: skip-file`) -> Skipped            *)
